@@ -58,6 +58,16 @@ def bash_match_sets(items, subjects, *, construct="case", extglob=False, nocase=
 # ----------------------------------------------------------------------------------
 # the check
 
+def untext(s):
+    """str -> the spec's text representation (symbolic names for the characters TLC cannot print)."""
+    inv = {v: k for k, v in vlib.SYMBOLIC.items()}
+    return [inv.get(c, c) for c in s]
+
+
+def subjects_raw_of(subjects, fam):
+    return [untext(x) for x in subjects[fam]]
+
+
 def spec_set(v, nsubj):
     s = set(v["acc"])
     for i, b in enumerate(v["xacc"]):
@@ -95,27 +105,89 @@ def run_go(h, vecs, subjects_raw, meta=False):
         shutil.rmtree(d, ignore_errors=True)
 
 
+def materialisable(s):
+    """Can the subject be a relative path below the scratch directory (all nodes are directories)?"""
+    if not s or s.startswith("/") or s.endswith("/") or "\n" in s or "\x00" in s:
+        return False
+    comps = s.split("/")
+    return all(c not in ("", ".", "..") for c in comps)
+
+
+def bash_glob_sets(items, subjects, *, nocase=False, dotglob=False, globstar=False, extglob=False):
+    """Real pathname expansion.  A directory tree is built in which every materialisable subject is
+    a directory; for every item (pattern, extras) the unquoted expansion `$p` (IFS empty, nullglob)
+    is run inside it.  Returns list of (matched index set, comparable index set) or None.
+    Patterns that could leave the tree (leading "/", a ".." anywhere) get no oracle."""
+    root = vlib.scratch("globtree-")
+    try:
+        tree = os.path.join(root, "t")
+        os.makedirs(tree)
+        made = set()
+        for sub in subjects:
+            if materialisable(sub):
+                os.makedirs(os.path.join(tree, sub.rstrip("/")), exist_ok=True)
+                made.add(sub)
+        pre = ["cd %s || exit 9" % q(tree), "shopt -s nullglob",
+               "shopt -%s nocaseglob" % ("s" if nocase else "u"), "shopt -%s dotglob" % ("s" if dotglob else "u"),
+               "shopt -%s globstar" % ("s" if globstar else "u"), "shopt -%s extglob" % ("s" if extglob else "u"),
+               "m() { local IFS=; local -a r; r=($1); printf '%s\\n' \"${r[@]}\"; }"]
+        todo = [i for i, (p, _) in enumerate(items) if not (p.startswith("/") or ".." in p)]
+        res = vlib.run_shell_evals(["m " + q(items[i][0]) for i in todo], prelude="\n".join(pre), locale="C.utf8",
+                                   per_process=4000, jobs=4)
+        out = [None] * len(items)
+        for i, r in zip(todo, res):
+            pat, extra = items[i]
+            if r is None or r.get("killed_shell"):
+                continue
+            allsub = list(subjects) + list(extra)
+            index = {}
+            for k, sub in enumerate(allsub):
+                index.setdefault(sub, []).append(k + 1)
+            names = r["out"].encode("latin-1").decode("utf-8", "replace").split("\n")
+            names = [x for x in names if x != ""]
+            mask = frozenset(k + 1 for k, sub in enumerate(allsub) if sub in made)
+            if names == [pat] and (len(subjects) + 1) not in mask:
+                continue    # bash did not treat the word as a pattern at all: no answer
+            got = set()
+            for nm in names:
+                for k in index.get(nm, ()):
+                    got.add(k)
+            out[i] = (frozenset(got) & mask, mask)
+        return out
+    finally:
+        shutil.rmtree(root, ignore_errors=True)
+
+
 def bash_oracle(vecs, subjects):
-    """Returns list (parallel to vecs) of frozenset or None (no oracle for that vector)."""
+    """Returns list (parallel to vecs) of (matched set, comparable index set or None = all), or None
+    (no oracle for that vector)."""
     out = [None] * len(vecs)
     groups = {}
     for i, v in enumerate(vecs):
         mode = v["mode"]
+        ext, nocase = "ExtendedOperators" in mode, "NoGlobCase" in mode
         if "Filenames" in mode:
-            continue  # pathname expansion oracle: see bash_glob_oracle
-        key = (v["fam"], "ExtendedOperators" in mode, "NoGlobCase" in mode)
+            key = (v["fam"], "glob", ext, nocase, "GlobLeadingDot" in mode, "NoGlobStar" not in mode)
+        else:
+            key = (v["fam"], "case", ext, nocase, False, False)
         groups.setdefault(key, {}).setdefault((text(v["pat"]), tuple(text(x) for x in v["xsubj"])), []).append(i)
-    for (fam, ext, nocase), items in sorted(groups.items()):
+    for (fam, kind, ext, nocase, dot, gstar), items in sorted(groups.items()):
         keys = list(items)
-        res = bash_match_sets([(p, list(x)) for p, x in keys], subjects[fam], extglob=ext, nocase=nocase)
+        its = [(p, list(x)) for p, x in keys]
+        if kind == "case":
+            res = [None if r is None else (r, None) for r in
+                   bash_match_sets(its, subjects[fam], extglob=ext, nocase=nocase)]
+        else:
+            res = bash_glob_sets(its, subjects[fam], nocase=nocase, dotglob=dot, globstar=gstar, extglob=ext)
         for k, r in zip(keys, res):
             for i in items[k]:
                 out[i] = r
     return out
 
 
-ALT_DEVS = {"deadbracket", "nocaseclass", "asciiclass"}      # = ShGlob!AltDevs
-TRIGGER_DEVS = {"rangeclass"}    # deviations with a trigger class only
+ALT_DEVS = {"deadbracket", "nocaseclass", "asciiclass", "groupscan", "slashbracket"}      # = ShGlob!AltDevs
+LOOSE_MALFORMED = {"unclosed-group"}   # undefined constructs on which bash itself is erratic
+TRIGGER_DEVS = {"rangeclass", "dashfirst"}    # deviations with a trigger class only
 ERR_DEVS = {"collating": "syntax", "openclass": "syntax", "negext": "negext"}   # deviation -> error kind it allows
 _DUMP = os.environ.get("VERIF_GLOB_DUMP")
 
@@ -141,18 +213,33 @@ def judge(ck, v, r, b, subjects):
     ck.cov["traces_validated_against_impl"] += 1
     if v.get("nontrivial"):
         ck.cov["distinct_nontrivial"] += 1
-    rec = {"vector": v, "pattern": pat, "mode": modekey(v["mode"])}
+    rec = {"vector": dict(v, subjects=subjects_raw_of(subjects, v["fam"])), "pattern": pat, "mode": modekey(v["mode"])}
     if "panic" in r:
         ck.violation(vec_key("panic", v), dict(rec, impl=r)); return
     if "harness_error" in r:
         raise vlib.Inconclusive(r["harness_error"])
     sp = spec_set(v, n)
-    rec["spec"] = {"matches": show(sp, subj, extra), "malformed": v["malformed"], "devs": v["devs"]}
+    rec["spec"] = {"matches": show(sp, subj, extra), "malformed": v["malformed"], "devs": v["devs"],
+                   "quirks": v.get("quirks", [])}
+    mask = None
     if b is not None:
+        b, mask = b
         rec["bash"] = {"matches": show(b, subj, extra)}
+        if mask is not None:
+            rec["bash"]["comparable_subjects"] = len(mask)
+        if v.get("quirks"):
+            # bash 5.2 departs from its own manual here (ShGlob!Quirks): not used as an oracle
+            for qk in v["quirks"]:
+                ck.notes["BashQuirk_" + qk] = ck.notes.get("BashQuirk_" + qk, 0) + 1
+            rec["bash"]["ignored"] = True
+            b = None
+
+    def on(x):   # restrict a set to the subjects bash can answer for
+        return x if mask is None else x & mask
+    loose = bool(set(v["malformed"]) & LOOSE_MALFORMED)
     if r["err"]:
         rec["impl"] = {"error": r["err"], "kind": r["errkind"]}
-        if v["malformed"] and r["errkind"] == "syntax":
+        if v["malformed"] and (r["errkind"] == "syntax" or (loose and r["errkind"] == "negext")):
             ck.notes["errors_on_malformed"] = ck.notes.get("errors_on_malformed", 0) + 1
             return
         allowed = [d for d in sorted(v["devs"]) if ERR_DEVS.get(d) == r["errkind"]]
@@ -170,21 +257,27 @@ def judge(ck, v, r, b, subjects):
         ck.violation(vec_key("error on a well-formed pattern:", v), rec); return
     if r["compile_err"]:
         rec["impl"] = {"rx": r["rx"], "compile_error": r["compile_err"]}
+        if "unclosed-group" in v["malformed"]:
+            dump("dev", rec)
+            ck.violation("Dev_unclosedgroup_nocompile", rec); return
         dump("nocompile", rec)
         ck.violation(vec_key("regexp does not compile:", v), rec); return
     im = impl_set(r, n)
     rec["impl"] = {"rx": r["rx"], "matches": show(im, subj, extra)}
-    if im == sp and (b is None or b == sp):
+    if im == sp and (b is None or b == on(sp)):
         if v.get("nontrivial"):
             ck.sample({"pattern": pat, "mode": modekey(v["mode"]), "regexp": r["rx"],
                        "matches": show(sp, subj, extra)[:12], "bash_agrees": b is not None})
         return
-    if b is not None and im == b and b != sp:
+    if loose and (im == sp or (b is not None and on(im) == b)):
+        return   # a construct with undefined meaning: either reading is accepted
+    if b is not None and on(im) == b and b != on(sp) and (mask is None or im - mask == sp - mask):
         dump("drift", rec)
         ck.drift(rec); return
-    rec["spec_agrees_with_bash"] = (b is None or b == sp)
-    rec["diff_impl_only"] = show(im - (b if b is not None else sp), subj, extra)
-    rec["diff_impl_missing"] = show((b if b is not None else sp) - im, subj, extra)
+    rec["spec_agrees_with_bash"] = (b is None or b == on(sp))
+    rec["impl_agrees_with_bash"] = (b is None or b == on(im))
+    rec["diff_impl_only"] = show(im - sp, subj, extra)
+    rec["diff_impl_missing"] = show(sp - im, subj, extra)
     # Named deviations with an alternative semantics defined in the spec (ShGlob!Devs): reported under
     # the deviation's name only when the code computes exactly what the deviation says it computes.
     alt = v.get("alt") or {}
@@ -199,28 +292,197 @@ def judge(ck, v, r, b, subjects):
             ck.violation("Dev_" + d, rec)
         dump("dev", rec)
         return
+    # deviation with a scope: the code may differ from the spec only on the subjects in v["scope"],
+    # and there bash must side with the spec
+    if "leadingdot" in v["devs"] and (im ^ sp) <= frozenset(v["scope"]) and (b is None or b == on(sp)):
+        ck.violation("Dev_leadingdot", rec)
+        dump("dev", rec)
+        return
     dump("differs", rec)
     ck.violation(vec_key("language differs:", v), rec)
 
 
-def run_families(ck, cfg, prop):
-    h = vlib.build_harness("glob")
-    t = vlib.run_tlc("ShGlob", cfg, workers=8, timeout=1500)
-    ck.add_tlc(t)
-    if not t.ok:
-        raise vlib.Inconclusive("ShGlob: the contract model is inconsistent:\n" + (t.violation or t.raw_tail))
-    vecs = t.vecs.get("VEC", [])
-    subjects_raw = {s["fam"]: s["subjects"] for s in t.vecs.get("STAT", [])}
+# families whose vectors are also run as `case` programs in the real interpreter, which always
+# matches with EntireString|ExtendedOperators: the mode whose language that is for the family's alphabet
+INTERP_FAMS = {"core": {"EntireString"}, "core1": {"EntireString"}, "brk": {"EntireString"}, "cls": {"EntireString"}, "clsall": {"EntireString"}, "utf": {"EntireString"},
+               "ext": {"EntireString", "ExtendedOperators"}, "extop": {"EntireString", "ExtendedOperators"},
+               "extbr": {"EntireString", "ExtendedOperators"}, "extmix": {"EntireString", "ExtendedOperators"}}
+
+
+def interp_program(pat, subjects, extra):
+    src = ("S=(" + " ".join(q(x) for x in subjects) + ")\np=" + q(pat) + "\nr=\n"
+           + 'for s in "${S[@]}"' + "".join(" " + q(x) for x in extra)
+           + '; do case $s in $p) r+=1;; *) r+=0;; esac; done\nprintf %s "$r"\n')
+    return src.encode("utf-8").decode("latin-1")
+
+
+def judge_interp(ck, v, ir, b, subjects):
+    """The same vector through interp's `case` (internal.ExtendedPatternMatcher; errors mean no match)."""
+    subj = subjects[v["fam"]]
+    n = len(subj)
+    extra = [text(x) for x in v["xsubj"]]
+    pat = text(v["pat"])
+    ck.cov["evaluations"] += 1
+    ck.notes["interp_case_programs"] = ck.notes.get("interp_case_programs", 0) + 1
+    rec = {"vector": dict(v, subjects=subjects_raw_of(subjects, v["fam"])), "level": "interp", "pattern": pat,
+           "mode": modekey(v["mode"])}
+    sp = spec_set(v, n)
+    rec["spec"] = {"matches": show(sp, subj, extra), "malformed": v["malformed"], "devs": v["devs"]}
+    if ir.get("panic"):
+        rec["impl"] = {"panic": ir["panic"], "stack": ir.get("stack", "")}
+        site = (ir.get("stack") or "?").split(" | ")[0].split("(")[0]
+        if "unclosed-group" in v["malformed"]:
+            ck.violation("Dev_unclosedgroup_panic", rec)
+        else:
+            ck.violation("interp panic at %s: pat=%s" % (site, json.dumps(pat)), rec)
+        dump("dev" if "unclosed-group" in v["malformed"] else "ipanic", rec)
+        return
+    out = ir.get("out", "")
+    if ir.get("parse_error") or ir.get("timeout") or len(out) != n + len(extra) or set(out) - {"0", "1"}:
+        raise vlib.Inconclusive("interp case program gave no usable answer for %r: %r" % (pat, ir))
+    im = bits_to_set(out)
+    rec["impl"] = {"matches": show(im, subj, extra)}
+    if b is not None and not v.get("quirks"):
+        b = b[0]
+        rec["bash"] = {"matches": show(b, subj, extra)}
+    else:
+        b = None
+    if im == sp and (b is None or b == sp):
+        return
+    if not im and (v["malformed"] or set(v["devs"]) & set(ERR_DEVS) - {"negext"}):
+        ck.notes["interp_no_match_on_rejected_pattern"] = ck.notes.get("interp_no_match_on_rejected_pattern", 0) + 1
+        return
+    if set(v["malformed"]) & LOOSE_MALFORMED and (im == sp or (b is not None and im == b)):
+        return   # a construct with undefined meaning: either reading is accepted
+    if b is not None and im == b and b != sp:
+        dump("drift", rec); ck.drift(rec); return
+    rec["diff_impl_only"] = show(im - sp, subj, extra)
+    rec["diff_impl_missing"] = show(sp - im, subj, extra)
+    alt = v.get("alt") or {}
+    if "unclosed-group" in v["malformed"]:
+        ck.violation("Dev_unclosedgroup_matcher", rec); dump("dev", rec); return
+    if "negext" in v["devs"]:
+        # internal/pattern.go: "Only a single !(...) group with fixed-string prefix and suffix is supported"
+        ck.violation("Dev_negext_matcher", rec); dump("dev", rec); return
+    if alt.get("on") and im == spec_set(alt, n):
+        for d in sorted(set(v["devs"]) & ALT_DEVS):
+            ck.violation("Dev_" + d, rec)
+        dump("dev", rec); return
+    trig = sorted(set(v["devs"]) & TRIGGER_DEVS)
+    if trig:
+        for d in trig:
+            ck.violation("Dev_" + d, rec)
+        dump("dev", rec); return
+    dump("idiffers", rec)
+    ck.violation(vec_key("interp case differs:", v), rec)
+
+
+def dev_explains(ck, v, im, n, rec):
+    """Is a difference between code and spec exactly a named deviation with an alternative semantics?"""
+    alt = v.get("alt") or {}
+    if alt.get("on") and im == spec_set(alt, n):
+        for d in sorted(set(v["devs"]) & ALT_DEVS):
+            ck.violation("Dev_" + d, rec)
+        return True
+    return False
+
+
+def run_interp_level(ck, h, vecs, bres, subjects):
+    sel = [i for i, v in enumerate(vecs) if INTERP_FAMS.get(v["fam"]) == set(v["mode"])]
+    # every pattern with a complete extended group, and a seeded sample of the others
+    # (the interpreter compiles the pattern once per `case`, ~100 times per program)
+    groups = [i for i in sel if vecs[i].get("hasgroup")]
+    rest = [i for i in sel if not vecs[i].get("hasgroup")]
+    ck.rng.shuffle(rest)
+    sel = sorted(groups + rest[:400 if ck.tier == "quick" else 2500])
+    progs = [{"src": interp_program(text(vecs[i]["pat"]), subjects[vecs[i]["fam"]], [text(x) for x in vecs[i]["xsubj"]]),
+              "timeout_ms": 20000} for i in sel]
+    res = vlib.run_harness(h, "interp", progs, shards=8)
+    for i, ir in zip(sel, res):
+        judge_interp(ck, vecs[i], ir, bres[i], subjects)
+
+
+def _phase(ck, name, t0):
+    import time
+    ph = ck.notes.setdefault("phase_s", {})
+    ph[name] = round(ph.get(name, 0) + time.time() - t0, 1)
+    return time.time()
+
+
+def evaluate(ck, h, vecs, subjects_raw, interp=True):
+    import time
+    t0 = time.time()
     subjects = {f: [text(x) for x in lst] for f, lst in subjects_raw.items()}
-    ck.cov["exhaustive"] = True
     res = run_go(h, vecs, subjects_raw)
+    t0 = _phase(ck, "go_regexp", t0)
     bres = bash_oracle(vecs, subjects)
-    ck.notes["bash_cross_checked"] = sum(1 for b in bres if b is not None)
+    t0 = _phase(ck, "bash", t0)
+    ck.notes["bash_cross_checked"] = ck.notes.get("bash_cross_checked", 0) + sum(1 for b in bres if b is not None)
     for v, r, b in zip(vecs, res, bres):
         judge(ck, v, r, b, subjects)
+    t0 = _phase(ck, "judge", t0)
+    if interp:
+        run_interp_level(ck, h, vecs, bres, subjects)
+        _phase(ck, "interp", t0)
+
+
+def run_families(ck, cfgs, prop, sim=None):
+    """cfgs: exhaustive TLC runs (BFS); sim: (cfg, behaviours, depth) for a seeded random run of the
+    same Next (longer patterns)."""
+    h = vlib.build_harness("glob")
+    seen = set()
+    exhaustive = 0
+    for cfg in cfgs:
+        t = vlib.run_tlc("ShGlob", cfg, workers=8, timeout=1500)
+        ck.add_tlc(t)
+        if not t.ok:
+            raise vlib.Inconclusive("ShGlob: the contract model is inconsistent:\n" + (t.violation or t.raw_tail))
+        vecs = t.vecs.get("VEC", [])
+        if len(vecs) != t.distinct:
+            raise vlib.Inconclusive("ShGlob %s: %d vectors for %d distinct states" % (cfg, len(vecs), t.distinct))
+        subjects_raw = {s["fam"]: s["subjects"] for s in t.vecs.get("STAT", [])}
+        for v in vecs:
+            seen.add((v["fam"], modekey(v["mode"]), tuple(v["pat"])))
+        exhaustive += len(vecs)
+        evaluate(ck, h, vecs, subjects_raw)
+        del vecs, t
+    ck.notes["exhaustive_vectors"] = exhaustive
+    if sim:
+        cfg, num, depth = sim
+        t = vlib.run_tlc("ShGlob", cfg, simulate=num, depth=depth, seed=ck.seed, timeout=900)
+        ck.add_tlc(t)
+        if not t.ok:
+            raise vlib.Inconclusive("ShGlob (simulation): the contract model is inconsistent:\n" + (t.violation or t.raw_tail))
+        subjects_raw = {s["fam"]: s["subjects"] for s in t.vecs.get("STAT", [])}
+        vecs = []
+        for v in t.vecs.get("VEC", []):
+            k = (v["fam"], modekey(v["mode"]), tuple(v["pat"]))
+            if k not in seen and v["fam"] in subjects_raw:
+                seen.add(k)
+                vecs.append(v)
+        ck.notes["simulated_new_vectors"] = len(vecs)
+        if vecs:
+            evaluate(ck, h, vecs, subjects_raw)
+    ck.cov["exhaustive"] = True
+    ck.cov["rule"] = ("one vector per TLC state = (family, mode set, pattern): every pattern of at most maxt+TokBoost tokens over "
+                      "the family's token alphabet (BFS, exhaustive) plus seeded random longer patterns (-simulate); each vector is "
+                      "matched against all subjects of the family (+ the pattern text and its unescaped text); evaluations = "
+                      "pattern.Regexp runs + interp `case` programs; non-trivial = the pattern has an active metacharacter and "
+                      "matches some but not all subjects (spec field `nontrivial`, counted once per vector)")
+    ck.assumptions += [
+        "subjects bounded per family (ShGlob!FamDef: all strings over sa up to sn, over la up to ln)",
+        "bash 5.2.15, LC_ALL=C.utf8: `case` with extglob off/on and nocasematch for the non-Filenames modes; real pathname "
+        "expansion (nullglob, dotglob, globstar, nocaseglob) in a directory tree of the materialisable subjects for Filenames modes",
+        "Filenames modes: bash answers only for normalised relative paths; other subjects are spec-vs-code only",
+        "bash is not used as oracle where ShGlob!Quirks applies (star directly before a @( +( !( group)",
+        "unclosed extended groups are undefined (spec: malformed `unclosed-group`): error, the spec's or bash's reading accepted",
+        "Shortest only with EntireString here (language must not change); prefix/suffix removal is C21's subject",
+    ]
 
 
 def replay(ck, rec, prop):
+    """Re-run one recorded vector (it carries its own subject universe) through all bindings."""
     h = vlib.build_harness("glob")
-    v = rec["vector"]
-    raise NotImplementedError
+    v = dict(rec["vector"])
+    subjects_raw = {v["fam"]: v.pop("subjects")}
+    evaluate(ck, h, [v], subjects_raw)
